@@ -1661,9 +1661,15 @@ Proof.
     cbn [render flat_map render_segment app]; rewrite ?app_nil_r, <- ?app_assoc; reflexivity.
 Qed.
 
-(** the message descriptor as AppendID / AppendSender read it *)
+(** the message descriptor as the renderers read it: ID, SenderNode, Name and the signals as [sig_of_r] *)
 Definition msg_of_r (m : message) : Translated.Message :=
-  Translated.set_Message_SenderNode (msg_of m) (msg_sender m).
+  Translated.set_Message_DelayTime
+    (Translated.set_Message_CycleTime
+       (Translated.set_Message_Signals
+          (Translated.set_Message_Name (Translated.set_Message_SenderNode (msg_of m) (msg_sender m)) (msg_name m))
+          (map sig_of_r (msg_signals m)))
+       (msg_cycle_time m))
+    (msg_delay_time m).
 
 Lemma T_AppendID_eq buf m : in_u 32 (msg_id m) ->
   Translated.AppendID buf (msg_of_r m) = buf ++ rnd (append_id m).
@@ -1684,4 +1690,94 @@ Qed.
 Lemma T_AppendSender_eq buf m :
   Translated.AppendSender buf (msg_of_r m) = buf ++ rnd (append_attr t_sender (Lit (msg_sender m))).
 Proof. unfold Translated.AppendSender. rewrite T_appendAttributeString_eq. reflexivity. Qed.
+
+(** *** the loops.  A parameter [m generated.Message] is the PAIR (value of m.Frame(), value of m.Descriptor());
+    [sigs_ok]: the Go field types (Start is a uint8); [len] is an int. *)
+Definition sigs_ok (m : message) : Prop := Forall (fun s => in_u 8 (s_start s)) (msg_signals m).
+
+Lemma rnd_app a b : rnd (a ++ b) = rnd a ++ rnd b.
+Proof. unfold render. apply flat_map_app. Qed.
+
+Lemma msg_of_r_signals m : Translated.Message_Signals (msg_of_r m) = map sig_of_r (msg_signals m). Proof. reflexivity. Qed.
+Lemma msg_of_r_name m : Translated.Message_Name (msg_of_r m) = msg_name m. Proof. reflexivity. Qed.
+Lemma rnd_cons_lit b l : rnd (Lit b :: l) = b ++ rnd l. Proof. reflexivity. Qed.
+Lemma go_deref_some {A} (z x : A) : go_deref z (Some x) = x. Proof. reflexivity. Qed.
+(** (the loops are unrolled with these two equations, not with cbn: the kernel re-checks a cbn step on [go_range] by
+    comparing the arguments of the two [go_range] applications first, which unfolds the translated callee) *)
+Lemma go_range_cons {A S R : Type} (body : Z -> A -> S -> go_loop S R) i x tl s :
+  go_range body i (x :: tl) s = match body i x s with LoopNext s' => go_range body (i + 1) tl s' | LoopReturn r => LoopReturn r end.
+Proof. reflexivity. Qed.
+Lemma go_range_nil {A S R : Type} (body : Z -> A -> S -> go_loop S R) i s : go_range body i [] s = LoopNext s.
+Proof. reflexivity. Qed.
+
+Lemma marshal_range d : valid_data d -> forall l, Forall (fun s => in_u 8 (s_start s)) l -> forall i buf,
+  go_range (fun (_ : Z) (s__ : Translated.Signal) (b : go_bytes) =>
+              @LoopNext go_bytes go_bytes (Translated.AppendSignal rG (go_append b [10; 9]) (go_deref Translated.zero_Signal (Some s__)) d))
+           i (map sig_of_r l) buf
+  = LoopNext (buf ++ rnd (flat_map (fun s => Lit t_nl_tab :: text_signal s d) l)).
+Proof.
+  intros Hd l Hs. induction Hs as [| s tl Hs1 Hs IH]; intros i buf.
+  - cbn [map flat_map render]. rewrite go_range_nil, app_nil_r. reflexivity.
+  - cbn [map flat_map]. rewrite go_range_cons. cbv beta. rewrite go_deref_some, T_AppendSignal_eq by assumption. rewrite IH.
+    rewrite !rnd_app, rnd_cons_lit. unfold go_append. rewrite <- ?app_assoc. reflexivity.
+Qed.
+
+Lemma T_cantext_Marshal_eq f m : valid_data (Translated.Frame_Data f) -> sigs_ok m ->
+  Translated.cantext_Marshal rG f (msg_of_r m) = rnd (text_multiline_data m (Translated.Frame_Data f)).
+Proof.
+  intros Hd Hs. unfold Translated.cantext_Marshal, text_multiline_data. cbv zeta.
+  rewrite msg_of_r_signals, msg_of_r_name, rnd_cons_lit.
+  rewrite marshal_range by assumption. reflexivity.
+Qed.
+
+Lemma compact_range d (N : nat) : valid_data d -> forall l, Forall (fun s => in_u 8 (s_start s)) l -> forall k buf,
+  (k + length l = N)%nat ->
+  go_range (fun (i : Z) (s__ : Translated.Signal) (b : go_bytes) =>
+              if negb (i =? Z.of_nat N - 1)
+              then @LoopNext go_bytes go_bytes (go_append (Translated.AppendSignalCompact rG b (go_deref Translated.zero_Signal (Some s__)) d) [44; 32])
+              else LoopNext (Translated.AppendSignalCompact rG b (go_deref Translated.zero_Signal (Some s__)) d))
+           (Z.of_nat k) (map sig_of_r l) buf
+  = LoopNext (buf ++ rnd (loop_sep (fun s => text_compact_signal s d) [Lit t_comma_sp] N k l)).
+Proof.
+  intros Hd l Hs. induction Hs as [| s tl Hs1 Hs IH]; intros k buf Hk.
+  - cbn [map loop_sep render flat_map]. rewrite go_range_nil, app_nil_r. reflexivity.
+  - cbn [map loop_sep length] in *. rewrite go_range_cons. cbv beta.
+    rewrite go_deref_some, T_AppendSignalCompact_eq by assumption.
+    replace (Z.of_nat k + 1) with (Z.of_nat (S k)) by lia.
+    rewrite !rnd_app.
+    destruct (Nat.eqb_spec k (N - 1)) as [E | E]; destruct (Z.eqb_spec (Z.of_nat k) (Z.of_nat N - 1)) as [E' | E']; try lia;
+      cbv beta iota delta [negb]; rewrite IH by lia; unfold go_append;
+      cbn [render flat_map render_segment]; rewrite ?app_nil_r, <- ?app_assoc; reflexivity.
+Qed.
+
+Lemma T_MarshalCompact_eq f m : valid_data (Translated.Frame_Data f) -> sigs_ok m ->
+  list_len (msg_signals m) < 2 ^ 63 ->
+  Translated.MarshalCompact rG f (msg_of_r m) = rnd (text_compact_data m (Translated.Frame_Data f)).
+Proof.
+  intros Hd Hs Hlen. unfold Translated.MarshalCompact, text_compact_data. cbv zeta.
+  rewrite msg_of_r_signals. unfold list_len in *. rewrite map_length.
+  rewrite (wrap_s_small 64) by (unfold in_s; lia).
+  rewrite (compact_range _ (length (msg_signals m)) Hd (msg_signals m) Hs 0%nat) by reflexivity.
+  rewrite !rnd_app. unfold go_append. cbn [render flat_map render_segment bytes_make Z.to_nat repeat app].
+  rewrite ?app_nil_r, <- ?app_assoc. reflexivity.
+Qed.
+
+(** time.Duration.String() is the oracle [rD] (nanoseconds -> text), as in the hand model's [GoDuration] segment *)
+Lemma T_AppendCycleTime_eq buf m :
+  Translated.AppendCycleTime rD buf (msg_of_r m) = buf ++ rnd (append_attr t_cycle_time (GoDuration (msg_cycle_time m))).
+Proof.
+  unfold Translated.AppendCycleTime, Translated.appendAttributeString, append_attr, go_append.
+  cbn [render flat_map render_segment app]. rewrite ?app_nil_r, <- ?app_assoc. reflexivity.
+Qed.
+Lemma T_AppendDelayTime_eq buf m :
+  Translated.AppendDelayTime rD buf (msg_of_r m) = buf ++ rnd (append_attr t_delay_time (GoDuration (msg_delay_time m))).
+Proof.
+  unfold Translated.AppendDelayTime, Translated.appendAttributeString, append_attr, go_append.
+  cbn [render flat_map render_segment app]. rewrite ?app_nil_r, <- ?app_assoc. reflexivity.
+Qed.
+
+Lemma T_MessageString_eq f m : valid_data (Translated.Frame_Data f) -> sigs_ok m ->
+  list_len (msg_signals m) < 2 ^ 63 ->
+  Translated.MessageString rG f (msg_of_r m) = rnd (text_compact_data m (Translated.Frame_Data f)).
+Proof. exact (T_MarshalCompact_eq f m). Qed.
 End RenderText.
